@@ -794,6 +794,10 @@ func (c *Ctx) genC04() {
 							cfg := baseCfg()
 							cfg.AllowIDP = allow
 							cfg.ReqV = reqv
+							// the other hook of the SP (a custom audience validator, accepting or refusing) has no say in which
+							// request a response answers
+							cfg.AudV = []string{"n", "t", "n", "f", "t"}[(si+len(rirt)+len(scirt))%5]
+							c.count("c04-audience-hook", cfg.AudV)
 							r := baseResp(cfg, now)
 							r.IRT = rirt
 							(*r.Entries[0].Subject)[0].Data.IRT = scirt
